@@ -1,5 +1,6 @@
 import DeltaModel.Proto
 import DeltaModel.EmphPaint
+import DeltaModel.PairThresholds
 /-!
 Line protocol for the `emph.*` ops of the C06 check (model side only; the implementation side is the hooked
 `style.config_style` and the real binary). Run with `lake env lean --run DeltaModel/EmphPaintProto.lean`
@@ -13,6 +14,14 @@ supplied: `key=D<look>` (a style string) or `key=R<name>` (a reference), comma s
 git: `name=<look>` comma separated (`[delta] name = …`), `-` = none; ws / ne: `look:e` or `-`;
 secs of emph.paint: `look:e:b`; secs of emph.line: `E<b>` (changed section) / `N<b>` (unchanged), b = blank.
 A model error prints `FATAL …` (delta exits with `fatal`) or `PANIC …`.
+
+  pair.thresholds <opt> <env>                      -> ok <p>/<q> <p>/<q>         (the thresholds `infer_edits` is called with)
+
+opt: the value of `--max-line-distance` as `<p>/<q>` (p may be negative), or `default` (option not given: the
+generated default); env: the environment variable of the naive-pairing threshold: `-` unset, `x` set but not a number,
+`<p>/<q>`. Answer: (max_line_distance, max_line_distance_for_naively_paired_lines) as `get_diff_style_sections` passes
+them (`DeltaModel/PairThresholds.lean`: the generated argument and field expressions, interpreted); `ERR …` when an
+expression cannot be evaluated on finite values.
 -/
 open Proto EmphPaint Generated.EmphPaint
 
@@ -66,8 +75,35 @@ def showSecs : Except String (List PSec) → String
 
 def gitOf (g : List (String × Nat)) : String → Option Nat := fun k => g.lookup k
 
+def parseQ (s : String) : Option PairThresholds.Q :=
+  match s.splitOn "/" with
+  | [p, q] => do
+    let q ← q.toNat?
+    if q = 0 then none
+    else match p.toList with
+      | '-' :: r => (String.ofList r).toNat?.map fun n => ⟨-(n : Int), q⟩
+      | _ => p.toNat?.map fun n => ⟨(n : Int), q⟩
+  | _ => none
+
+def showQ (q : PairThresholds.Q) : String := toString q.num ++ "/" ++ toString q.den
+
+def pairThresholds (opt env : String) : String :=
+  let opt? : Option PairThresholds.Q :=
+    if opt == "default" then
+      PairThresholds.eval (fun _ _ => none) (fun _ => .unset) Generated.PairThresholds.maxLineDistanceDefault
+    else parseQ opt
+  let env? : Option PairThresholds.EnvVar :=
+    if env == "-" then some .unset else if env == "x" then some .unparseable else (parseQ env).map .value
+  match opt?, env? with
+  | some o, some e =>
+    match PairThresholds.effective ⟨o, e⟩ with
+    | some (mx, nv) => "ok " ++ showQ mx ++ " " ++ showQ nv
+    | none => "ERR not evaluable"
+  | _, _ => "ERR"
+
 def stepLine (line : String) : String :=
   match fields line with
+  | ["pair.thresholds", opt, env] => pairThresholds opt env
   | ["emph.parse", sup, git] =>
     match listOf parseSuppliedEntry sup, listOf parseGitEntry git with
     | some sup, some git =>
